@@ -13,7 +13,7 @@ use serde_json::{Value, json};
 pub static SPEC: PropSpec = PropSpec {
     id: "C18",
     level: "exploration",
-    rule: "values: definition sets of 2-6 non-generic structs / enums (fields int32, string, bool, unit, earlier user types, self-recursive enum payloads; field names from a pool containing tag, fields, self, acc, s, x, json_escape_string, to_json, to_string, Go keywords) each deriving ToString and/or ToJson, and 3-8 random values per type with strings over a hostile alphabet (quotes, backslashes, all C0 controls, DEL, NBSP, U+2028, BOM, private use, emoji, non-characters); every to_json output must parse as JSON and decode to the value (objects per struct, tag/fields per variant), every to_string output must equal `Name { f: v }` / `Enum::Variant(v)`. acceptance probes: every field type outside the supported set (all other integer widths, floats, bool / unit under ToString, tuples, arrays, Vec, Ref, function types, dyn, generic definitions) under each derive, as first / later struct field and as first / later enum payload - accepted (then checked) or refused by a diagnostic that names the derive. non-trivial: every value; distinct by (definition set, value) hash",
+    rule: "values: definition sets of 2-6 non-generic structs / enums (derive attributes written separately in either order or as one list - tight, spaced, trailing comma, one entry per line, empty entry; fields int32, string, bool, unit, earlier user types, self-recursive enum payloads; field names from a pool containing tag, fields, self, acc, s, x, json_escape_string, to_json, to_string, Go keywords) each deriving ToString and/or ToJson, and 3-8 random values per type with strings over a hostile alphabet (quotes, backslashes, all C0 controls, DEL, NBSP, U+2028, BOM, private use, emoji, non-characters); every to_json output must parse as JSON and decode to the value (objects per struct, tag/fields per variant), every to_string output must equal `Name { f: v }` / `Enum::Variant(v)`. acceptance probes: every field type outside the supported set (all other integer widths, floats, bool / unit under ToString, tuples, arrays, Vec, Ref, function types, dyn, generic definitions) under each derive, as first / later struct field and as first / later enum payload - accepted (then checked) or refused by a diagnostic that names the derive. non-trivial: every value; distinct by (definition set, value) hash",
     eval_counter: "values_checked",
     assumptions: &["JSON well-formedness and decoding are decided by serde_json; Go's %q is modelled by gomini (strings whose printability gomini does not know are inconclusive)"],
     crash_is_violation: false,
